@@ -36,6 +36,7 @@ type harnessOut struct {
 	Inconclusive  map[string]int      `json:"inconclusive"`
 	Unsupported   map[string]int      `json:"unsupported"`
 	InitFails     map[string]int      `json:"init_failures"`
+	Cuts          map[string]int      `json:"cuts"`
 	Steps         int64               `json:"instructions_interpreted"`
 	Decisions     int64               `json:"decisions"`
 	SolverQueries int                 `json:"solver_queries"`
@@ -178,6 +179,7 @@ func main() {
 		ho.Inconclusive = rr.Inconclusive
 		ho.Unsupported = rr.Unsupported
 		ho.InitFails = rr.InitFails
+		ho.Cuts = rr.Cuts
 		ho.Steps = rr.Steps
 		ho.Decisions = rr.Decisions
 		ho.SolverQueries, ho.SolverSat, ho.SolverUnsat, ho.SolverUnknown, ho.SolverErrors = rr.SolverQ, rr.SolverSat, rr.SolverUnsat, rr.SolverUnk, rr.SolverErr
